@@ -132,6 +132,9 @@ package dag
 //@   safety
 //@   requires transaction != nil && !isNilIface(headers)
 //@   ensures [absent-or-a-list] isNilIface(result) && headers.Get(palHeader).1 ==> typeOf(headers.Get(palHeader).0) == []any
+// what is decoded is the RENDERING of the entry (fmt's %s of any value), never the entry asserted to be a string
+//@   call (*base64.Encoding).DecodeString #1 requires [entries-are-rendered-not-asserted] arg(1) == ret(call fmt.Sprintf #1)
+//@        && arg(call fmt.Sprintf #1, 0) == "%s" && len(arg(call fmt.Sprintf #1, 1)) == 1 && arg(call fmt.Sprintf #1, 1)[0] == curr
 // a reachability clause: the function RETURNS for a list whose first entry is not a string (the cover of
 // this antecedent is exercisable on the pinned tree; a bare assertion on the entries makes it unreachable)
 //@   ensures [an-entry-of-another-json-type-is-answered] headers.Get(palHeader).1 && typeOf(headers.Get(palHeader).0) == []any
